@@ -632,11 +632,21 @@ func ssSpawn(root string, linger bool) (*ssProc, error) {
 	if linger {
 		args = append(args, "linger")
 	}
-	cmd := exec.Command(os.Args[0], args...)
+	exe, err := os.Executable()
+	if err != nil {
+		return nil, err
+	}
+	cmd := exec.Command(exe, args...)
 	cmd.Env = append(os.Environ(), "GOMEMLIMIT=1GiB", "GOMAXPROCS=4")
+	// Mutated frames can turn any string of a request (a handle, an extension name) into a RELATIVE
+	// path of another request kind; the os-backed server resolves those against the process working
+	// directory.  The child therefore lives in a scratch directory of its own.
+	cmd.Dir = filepath.Join(root, "cwd")
+	if err := os.MkdirAll(cmd.Dir, 0o755); err != nil {
+		return nil, err
+	}
 	p := &ssProc{cmd: cmd, stderr: &ssTail{}, knows: map[string]bool{}}
 	cmd.Stderr = p.stderr
-	var err error
 	if p.in, err = cmd.StdinPipe(); err != nil {
 		return nil, err
 	}
